@@ -297,6 +297,12 @@ func init() {
 	reg("(*math/big.Int).String", text)
 	reg("(*math/big.Int).Text", func(ex *Exec, st *State, fn *ssa.Function, args []Value, site ssa.Instruction) Value {
 		b := args[1].(*Term)
+		if b.IsConst() && b.ConstU() == 16 {
+			a := ex.bigGet(st, args[0])
+			if !a.IsConst() {
+				return ex.bigHex(st, a, site)
+			}
+		}
 		if !b.IsConst() || b.ConstU() != 10 {
 			a := ex.bigGet(st, args[0])
 			if a.IsConst() && b.IsConst() {
@@ -349,3 +355,25 @@ func (ex *Exec) bigDecimal(st *State, a *Term, site ssa.Instruction) Value {
 }
 
 var _ = types.Typ
+
+// bigHex returns the minimal lower-case hexadecimal text of a non-negative symbolic value ("0" for zero).
+func (ex *Exec) bigHex(st *State, a *Term, site ssa.Instruction) Value {
+	w := a.W
+	ex.boundIf(st, Slt(a, BV(w, 0)), "big.Int.Text(16) of a negative symbolic value", site)
+	L := w / 4
+	lz := i64(int64(L))
+	for k := 0; k < L; k++ {
+		nib := Extract(4*k+3, 4*k, a)
+		lz = Ite(Not(Eq(nib, BV(4, 0))), i64(int64(L-1-k)), lz)
+	}
+	// zero renders as one digit
+	lz = Ite(Eq(lz, i64(int64(L))), i64(int64(L-1)), lz)
+	n := Sub(i64(int64(L)), lz)
+	shifted := Bin(OpBvShl, a, Mul(Zext(lz, w), BV(w, 4)))
+	es := make([]Value, L)
+	for j := 0; j < L; j++ {
+		nib := Zext(Extract(w-1-4*j, w-4-4*j, shifted), 8)
+		es[j] = Ite(Ult(nib, BV(8, 10)), Add(nib, BV(8, '0')), Add(nib, BV(8, 'a'-10)))
+	}
+	return &SliceV{Base: ex.newArray(st, es), Off: i64(0), Len: n, Cap: n}
+}
